@@ -100,6 +100,13 @@ def run(program, res, tier):
                 if not fields:
                     continue
                 n_inst += 1
+                lossy = _lossy_container(argexpr)
+                if lossy is not None and any(f in core for f in fields):
+                    res.fail_at("C07-S1", rl, f"lossy-handover:{param}",
+                                f"self.{'/'.join(sorted(fields))} reaches parameter '{param}' of {callee.name} through `{unparse(lossy)[:60]}`, which cannot hold what the lists hold "
+                                f"(a mapping keeps one entry per key, a set forgets order and repeats): a join on=[('k','k1'), ('k','k2')] is rebuilt by composition as "
+                                f"on=[('k','k2')] and a >> b returns rows the sequential application does not", call)
+                    continue
                 fed = feeds.get(param, set())
                 wrong = [f for f in fields if f not in fed and f in core]
                 # a field may be passed together with others (on=[(a,b)...]); require each to be fed
@@ -117,6 +124,22 @@ def run(program, res, tier):
     _s3(program, res)
     res.rule("C07-S4", "composition does not drop an ordering that a later step of b observes")
     _s4_trailing_order(program, model, res)
+
+
+def _lossy_container(e):
+    """a sub-expression that rebuilds parallel / ordered lists as a mapping or a set: dict(zip(…)), {a: b for a, b in zip(…)}, set(…), frozenset(…), {x for …}"""
+    for n in ast.walk(e):
+        if isinstance(n, ast.Call) and isinstance(n.func, ast.Name):
+            if n.func.id in ("set", "frozenset") and n.args:
+                return n
+            if n.func.id == "dict" and n.args and isinstance(n.args[0], (ast.Call, ast.ListComp, ast.GeneratorExp)) \
+                    and (not isinstance(n.args[0], ast.Call) or dotted_name(n.args[0].func) == "zip"):
+                return n
+        if isinstance(n, ast.SetComp):
+            return n
+        if isinstance(n, ast.DictComp) and any(isinstance(g_.iter, ast.Call) and dotted_name(g_.iter.func) == "zip" for g_ in n.generators):
+            return n
+    return None
 
 
 def _feeds_through(model, k, callee):
